@@ -1,5 +1,177 @@
-"""Engine T: recursion-measure obligations (DESIGN 2.4) — filled in below."""
+"""Engine T: recursion-measure obligations (DESIGN 2.4).
+
+From the macro-expanded source of the working tree: call graph between the functions of the
+modules in scope (self-calls resolved exactly, other method calls by name unless the name is a
+std method name), then: every function on a call cycle must be cut by a guard, carry a measure
+proved elsewhere, or sit behind an exempt edge.  The remaining rank constraints
+`rank(callee) < rank(caller)` are discharged by z3; functions that stay on a cycle are failed
+obligations (named; no input exists by nature).
+"""
+import os
+import subprocess
+import sys
+import tomllib
+
+from vx import VERIF
+
+
+def load_cfg():
+    with open(os.path.join(VERIF, "contracts", "engine_t.toml"), "rb") as f:
+        return tomllib.load(f)
+
+
+def build_graph(src, cfg):
+    mods = cfg["scope"]
+    STD = set(cfg["std_names"])
+    fns = [it for it in src.items if it["kind"] == "fn" and "::tests::" not in it["path"] and any(it["path"].startswith(m + "::") or it["path"].startswith(m) and it["path"].split("::")[0] == m for m in mods)]
+    byname = {}
+    for it in fns:
+        byname.setdefault(it["name"], []).append(it["path"])
+    edges = {}
+    for it in fns:
+        imp = it["path"].rsplit("::", 1)[0]
+        for n in it["nodes"]:
+            tgt = []
+            if n["kind"] == "methodcall":
+                m = n["method"]
+                if n["receiver_text"] in ("self", "(*self)") and (imp + "::" + m) in byname.get(m, []):
+                    tgt = [imp + "::" + m]
+                elif m in byname and m not in STD:
+                    tgt = byname[m]
+            elif n["kind"] == "call":
+                f = n["func"].split("::<")[0]
+                last = f.split("::")[-1]
+                if last in byname and last not in STD:
+                    if "::" in f:
+                        pre = f.rsplit("::", 1)[0].replace("Self", imp.split("::")[-1]).replace("crate::", "")
+                        tgt = [p for p in byname[last] if p.rsplit("::", 1)[0].endswith(pre)]
+                    else:
+                        # bare name: a fn nested in this fn, or a free fn of the same module
+                        tgt = [p for p in byname[last] if p.startswith(it["path"] + "::")] or [p for p in byname[last] if p.rsplit("::", 1)[0] == it["path"].rsplit("::", 1)[0]] or [p for p in byname[last] if p.rsplit("::", 1)[0] == imp.rsplit("::", 1)[0]]
+            for t in tgt:
+                edges.setdefault(it["path"], set()).add(t)
+    return [it["path"] for it in fns], edges
+
+
+def sccs(nodes, edges):
+    sys.setrecursionlimit(100000)
+    idx, low, st, on, out, c = {}, {}, [], set(), [], [0]
+
+    def sc(v):
+        idx[v] = low[v] = c[0]
+        c[0] += 1
+        st.append(v)
+        on.add(v)
+        for w in edges.get(v, ()):
+            if w not in idx:
+                sc(w)
+                low[v] = min(low[v], low[w])
+            elif w in on:
+                low[v] = min(low[v], idx[w])
+        if low[v] == idx[v]:
+            comp = []
+            while True:
+                w = st.pop()
+                on.discard(w)
+                comp.append(w)
+                if w == v:
+                    break
+            out.append(comp)
+
+    for v in nodes:
+        if v not in idx:
+            sc(v)
+    return out
+
+
+def on_cycle(nodes, edges):
+    r = set()
+    for comp in sccs(nodes, edges):
+        if len(comp) > 1 or comp[0] in edges.get(comp[0], ()):
+            r.update(comp)
+    return r
+
+
+def z3_ranks(nodes, edges):
+    """asks z3 for ranks with rank(callee) < rank(caller) on every edge; returns (sat?, output)"""
+    ids = {n: i for i, n in enumerate(nodes)}
+    lines = ["(set-option :produce-unsat-cores true)"]
+    for n in nodes:
+        lines.append(f"(declare-const r{ids[n]} Int)")
+    k = 0
+    names = {}
+    for u, vs in edges.items():
+        for v in vs:
+            if u in ids and v in ids:
+                nm = f"e{k}"
+                names[nm] = (u, v)
+                lines.append(f"(assert (! (< r{ids[v]} r{ids[u]}) :named {nm}))")
+                k += 1
+    lines.append("(check-sat)")
+    lines.append("(get-unsat-core)")
+    p = subprocess.run(["z3", "-in"], input="\n".join(lines).encode(), capture_output=True, timeout=120)
+    out = p.stdout.decode()
+    sat = out.strip().startswith("sat")
+    core = []
+    if not sat and "(" in out:
+        for nm in out[out.index("(") + 1 : out.rindex(")")].split():
+            if nm in names:
+                core.append(names[nm])
+    return sat, core, k
 
 
 def run_for(prop, S, outdir):
-    return [], []
+    from driver import Result
+
+    cfg = load_cfg()
+    props = {p["id"]: p["prefixes"] for p in cfg["property"]}
+    if prop != "ALL" and prop not in props:
+        return [], []
+    try:
+        src = S("expanded")
+    except Exception as e:
+        return [Result("engine_t/*", "T", "undecided", f"expansion failed: {e}")], []
+    nodes, edges = build_graph(src, cfg)
+    exempt = {(e["from"], e["to"]) for e in cfg.get("exempt", [])}
+    full = {u: {v for v in vs if (u, v) not in exempt} for u, vs in edges.items()}
+    guards = {g["fn"] for g in cfg.get("guard", [])}
+    measured = {m["fn"] for m in cfg.get("measure", [])}
+    missing = [g for g in guards | measured if g not in nodes]
+    results = []
+    info = {"unit": "engine_t", "engine": "recursion measures (z3)", "cmd": "z3 -in  (rank constraints generated from the call graph of the expanded source)", "wall_s": 0.0, "smt_s": 0.0, "trusted": [], "functions": [], "assumptions": []}
+    for e in cfg.get("exempt", []):
+        info["assumptions"].append(f"engine T exempt edge {e['from']} -> {e['to']}: {e['why']}")
+    info["assumptions"].append("engine T resolves method calls on receivers other than `self` by name; names in std_names are taken to be std methods")
+    if missing:
+        for g in missing:
+            results.append(Result(f"engine_t/{g}", "T", "undecided", f"lost anchor: guard/measured function `{g}` not found", 0, {"unit": "engine_t", "props": [prop]}))
+        return results, [info]
+    cyc_full = on_cycle(nodes, full)
+    reduced = {}
+    for u, vs in full.items():
+        if u in measured:
+            vs = {v for v in vs if v != u}
+        reduced[u] = {v for v in vs if v not in guards}
+    fail = on_cycle(nodes, reduced)
+    ok_nodes = [n for n in nodes if n not in fail]
+    ok_edges = {u: {v for v in vs if v not in fail} for u, vs in reduced.items() if u not in fail}
+    sat, core, nedges = z3_ranks(ok_nodes, ok_edges)
+    # longest guard-free path (frames between two guard increments)
+    for f in sorted(cyc_full):
+        fprops = [pid for pid, pre in props.items() if any(f.startswith(x) for x in pre)]
+        if prop != "ALL" and prop not in fprops:
+            continue
+        meta = {"unit": "engine_t", "props": fprops, "fn": f, "what": "every call cycle through this function passes a depth-counting guard or a proved measure"}
+        ob = f"engine_t/{f}"
+        if f in fail:
+            cyc = sorted((u, v) for u in fail for v in reduced.get(u, ()) if v in fail and (u == f or v == f))
+            import hashlib
+            meta["sig"] = hashlib.sha256(";".join(f"{u}->{v}" for u, v in cyc).encode()).hexdigest()[:10]
+            results.append(Result(ob, "T", "false", f"guard-free call cycle [sig {meta['sig']}]: " + "; ".join(f"{u} -> {v}" for u, v in cyc[:8]), 0, meta))
+        elif not sat:
+            results.append(Result(ob, "T", "undecided", "z3 did not confirm the rank assignment", 0, meta))
+        else:
+            results.append(Result(ob, "T", "verified", "", 0, meta))
+        info["functions"].append(f)
+    info["rank_constraints"] = nedges
+    return results, [info]
